@@ -8,7 +8,7 @@ from ..program import AnalysisError, Program, norm, walk_local, ancestors
 from ..report import Check
 from ..types import Types
 from ..util import calls_in, fkey, is_method_call, node_calls, path_of, recv_of, stores_to_attr, where
-from .mgr import MGR, CORE, Dispatch, self_call
+from .mgr import MGR, CORE, Dispatch, self_call, live_follow
 from .c14 import conn_error_handlers, catches_conn_error
 from .c19 import module_param
 
@@ -60,6 +60,9 @@ def run(prog: Program, chk: Check):
     rm = prog.func(MGR, "MessageManager.remove_module")
     rg = C.build(rm.node)
     mp = module_param(prog, ty, rm)
+    # obligations of remove_module are about a module that is still registered: the idempotence guard's
+    # "already removed" exit is excluded from the paths considered
+    lf, dead_edges = live_follow(rg, mp)
 
     # ---- R registration / erasure pairing ---------------------------------------------------------------
     R = chk.rule("C07-R", "every container a Module/socket is registered in is emptied of it by remove_module on every normal path", 3,
@@ -94,7 +97,7 @@ def run(prog: Program, chk: Check):
                         # unconditional in the loop body
                         if not any(isinstance(a, (ast.If, ast.Try)) for a in ancestors(c) if any(x is lp for x in ancestors(a))):
                             hn = [n for n in rg.nodes if n.kind == "for" and n.ast is lp]
-                            if hn and not flow.must_follow(rg, [rg.entry], hn, exits=("exit",)):
+                            if hn and not flow.must_follow(rg, [rg.entry], hn, exits=("exit",), follow=lf):
                                 good = True
             R.decide(good, fkey(rm, f"erase:{attr}[*]"), where(rm), f"self.{attr}[k].discard({mp}) for every k in {mp}.subs on every path",
                      f"remove_module does not discard the module from self.{attr}[k] for every k in {mp}.subs")
@@ -111,7 +114,7 @@ def run(prog: Program, chk: Check):
         if attr == "sockets" and not readers:
             R.ok(fkey(rm, f"write-only:{attr}"), where(rm), f"self.{attr} is append-only and never read (frozen exception; lapses when a reader appears)")
             continue
-        esc = flow.must_follow(rg, [rg.entry], is_erase, exits=("exit",))
+        esc = flow.must_follow(rg, [rg.entry], is_erase, exits=("exit",), follow=lf)
         R.decide(not esc, fkey(rm, f"erase:{attr}"), where(rm), f"self.{attr} loses the module on every normal path",
                  f"a normal path of remove_module leaves the module registered in self.{attr} (registered in: " + ", ".join(sorted({f.qual for f, _, _ in sites})) + ")")
     for need in ("modules", "logger_modules", "subscriptions"):
@@ -217,7 +220,7 @@ def run(prog: Program, chk: Check):
                     F.decide(okc, fkey(f, c), where(f, c), "Module.close called from remove_module / shutdown", f"Module.close called from {f.qual}")
     # remove_module closes
     closes = [n for n in rg.nodes for c in node_calls(n) if is_method_call(c, "close") and path_of(recv_of(c)) == mp]
-    F.decide(bool(closes) and not flow.must_follow(rg, [rg.entry], closes, exits=("exit",)), fkey(rm, "closes-connection"), where(rm),
+    F.decide(bool(closes) and not flow.must_follow(rg, [rg.entry], closes, exits=("exit",), follow=lf), fkey(rm, "closes-connection"), where(rm),
              "remove_module closes the connection on every path", "remove_module does not close the module's connection on every path")
 
     # ---- C exactly one CLIENT_CLOSED ------------------------------------------------------------------------------
@@ -227,7 +230,10 @@ def run(prog: Program, chk: Check):
     for cf, cc in cg.call_sites_of(scc.key):
         Cc.decide(cf.key == rm.key, fkey(cf, cc), where(cf, cc), "called from remove_module", f"send_client_close called from {cf.qual}")
     iscc = lambda n: any(self_call("send_client_close")(c) and c.args and path_of(c.args[0]) == mp for c in node_calls(n))
-    lo, hi = flow.count_on_paths(rg, iscc, [rg.entry.id], [rg.exit.id])
+    lo, hi = flow.count_on_paths(rg, iscc, [rg.entry.id], [rg.exit.id], follow=lf)
+    # ... and none at all for a module that is already gone
+    lo0, hi0 = (flow.count_on_paths(rg, iscc, [d for (s_, d, k) in dead_edges], [rg.exit.id]) if dead_edges else (0, 0))
+    Cc.decide(hi0 in (0, -1), fkey(rm, "no-notice-for-removed-module"), where(rm), "an already removed module produces no second CLIENT_CLOSED", "remove_module republishes CLIENT_CLOSED for a module that is already removed")
     Cc.decide((lo, hi) == (1, 1), fkey(rm, "client-closed-once"), where(rm), "exactly one send_client_close(module) on every normal path",
               f"remove_module publishes CLIENT_CLOSED [{lo}, {hi}] times on a normal path")
     env = ty.locals_of(scc)
